@@ -4,7 +4,7 @@ from .common import *
 
 def drivers_run(mode, maxn, maxm, name, caseset="all"):
     return run_tlc("Drivers.tla", cfg(constants={"Mode": mode, "MaxN": maxn, "MaxM": maxm, "CaseSet": caseset},
-                                      invariants=["DriversCorrect", "Export"]), name, workers=6, timeout=3000)
+                                      invariants=["DriversCorrect", "NestedDriversCorrect", "Export"]), name, workers=6, timeout=3000)
 
 
 def run(tier):
